@@ -678,7 +678,21 @@ class Executor(object):
         return SV('lambda', None, e)
 
     def ev_IfExp(self, e, path):
-        raise Unsupported('conditional expression')
+        # `a if c else b`: both arms are evaluated on copies of the path; supported when the test is decided
+        # statically or when both arms give values of one type without changing the heap
+        c = self.truth(self.ev(e.test, path), path)
+        cs = z3.simplify(c)
+        if z3.is_true(cs):
+            return self.ev(e.body, path)
+        if z3.is_false(cs):
+            return self.ev(e.orelse, path)
+        pa, pb = path.fork(c), path.fork(z3.Not(c))
+        a, b = self.ev(e.body, pa), self.ev(e.orelse, pb)
+        if pa.heap is not path.heap or pb.heap is not path.heap or pa.exc or pb.exc:
+            raise Unsupported('conditional expression with effects at line %d' % e.lineno)
+        if a.ty == b.ty and a.t is not None and b.t is not None and a.ty in hp.REF_TYPES + ('H', 'bool', 'int', 'F'):
+            return SV(a.ty, z3.If(c, a.t, b.t))
+        raise Unsupported('conditional expression of types %s / %s at line %d' % (a.ty, b.ty, e.lineno))
 
     def ev_ListComp(self, e, path):
         return self.comprehension(e, path, 'list')
